@@ -24,12 +24,18 @@ from yaql.language import exceptions, expressions, factory, utils
 from yaql import legacy
 
 ID = 'C02'
-LEAN_MODULES = ['Yaql.Props.C02', 'Yaql.Props.C02Table', 'Yaql.Props.C02Gen', 'Yaql.Props.C03Parse']
+LEAN_MODULES = ['Yaql.Props.C02', 'Yaql.Props.C02Table', 'Yaql.Props.C02Levels', 'Yaql.Props.C02Order',
+                'Yaql.Props.C02Iso', 'Yaql.Props.C02Gen', 'Yaql.Props.C03Parse']
 REQUIRED_THEOREMS = [
     'Yaql.Props.C02.parse_sound', 'Yaql.Props.C02.parse_roundtrip', 'Yaql.Props.C02.parse_unique',
     'Yaql.Props.C02.yield_injective',
     'Yaql.Props.C02Table.insert_same_group', 'Yaql.Props.C02Table.insert_new_group',
     'Yaql.Props.C02Table.insert_front',
+    'Yaql.Props.C02Levels.levels_contiguous', 'Yaql.Props.C02Levels.populated_insert',
+    'Yaql.Props.C02Levels.reachable_populated', 'Yaql.Props.C02Levels.standard_populated',
+    'Yaql.Props.C02Order.keyedRows_sorted', 'Yaql.Props.C02Order.ply_order_iso',
+    'Yaql.Props.C02Iso.reduce_by_key', 'Yaql.Props.C02Iso.reduce_by_group', 'Yaql.Props.C02Iso.keys_in_range',
+    'Yaql.Props.C02Gen.live_tables_populated', 'Yaql.Props.C02Gen.live_names_disjoint',
     'Yaql.Props.C03Parse.parse_total_classified', 'Yaql.Props.C03Parse.error_at_first_rejected_token',
     'Yaql.Props.C03Parse.error_none_only_at_end',
     'Yaql.Props.C02Gen.default_tuple', 'Yaql.Props.C02Gen.legacy_tuple',
